@@ -347,6 +347,14 @@ def _scope_cause(p_scopes, svc_scopes, rule, rname) -> str:
     return f'scope.{_key_rule(rname)}.' + (sorted(classes)[0] if classes else 'selection')
 
 
+def _selection_key(label, direction, cause, rname) -> str:
+    """one mechanism = one key: a wrong selection explained by a recognised class of match_scope disagreement is reported under the match_scope key."""
+    cls = cause.rsplit('.', 1)[-1]
+    if cause.startswith('scope.') and cls in ('invalid_utf8_escape', 'empty_path_vs_rootless'):
+        return f'match.{_key_rule(rname)}.{"accepts" if direction == "answers_nonmatching" else "rejects"}.{cls}'
+    return f'{label}.{direction}.{cause}'
+
+
 # =============================================================================================
 # 2  Probe / Resolve against the reference selection
 # =============================================================================================
@@ -442,11 +450,11 @@ def w_probe(ctx: core.Ctx, arg):
                 for epr in sorted(got - want):
                     t, s = model.get(epr, ([], []))
                     cause = 'unpublished' if epr not in model else ('types' if any(x not in t for x in (p_types or [])) else _scope_cause(p_scopes, s, rule, rname))
-                    ctx.witness(f'{label}.answers_nonmatching.{cause}', 'a service that does not satisfy the Probe was selected',
+                    ctx.witness(_selection_key(label, 'answers_nonmatching', cause, rname), f'{label}: a service that does not satisfy the Probe was selected',
                                 {'epr': epr, 'service': model.get(epr), 'probe': msg})
                 for epr in sorted(want - got):
                     cause = _scope_cause(p_scopes, model[epr][1], rule, rname) if p_scopes else 'types'
-                    ctx.witness(f'{label}.misses_matching.{cause}', 'a published service satisfying the Probe was not selected',
+                    ctx.witness(_selection_key(label, 'misses_matching', cause, rname), f'{label}: a published service satisfying the Probe was not selected',
                                 {'epr': epr, 'service': model.get(epr), 'probe': msg})
             if other:
                 ctx.witness('probe.other_message_sent', f'a Probe made the node queue {other}', {'probe': msg})
